@@ -127,9 +127,50 @@ def handleRmx (p : Param) (nounset : Bool) (k : RmKind) (ptxt : Str) : Str :=
     showOutcome p i ++ " | ".toList ++ showOutcome p s ++ " | ".toList ++
       (if cl.isEmpty then ['-'] else (String.intercalate "," cl).toList)
 
+/-- `IND <ok|unset|empty|bad> <target param…> <op…>`: the operator through a reference `${!r…}`.
+`ok`: `r` holds the text of the target parameter; `unset` / `empty`: `r` has no / an empty value;
+`bad`: `r` holds text that is not a parameter.  The probe reports the *target* afterwards. -/
+def handleInd (nounset : Bool) (refState : Str) (target : Param) (opToks : List Str) : Str :=
+  match parseOp opToks with
+  | none => "bad-op".toList
+  | some (op, pat) =>
+    let pt := pat.getD []
+    let tname : Str := ['t']
+    let ok := refState = "ok".toList
+    let ref : Param :=
+      if ok then .named (some tname)
+      else if refState = "unset".toList then .named none
+      else if refState = "empty".toList then .named (some [])
+      else .named (some "1x".toList)
+    let env : Str → Option Param := fun n => if n = tname then some target else none
+    let i := expandExprInd ref env nounset (globMatch pt) op
+    let s := bashExprInd (if ok then some target else none) nounset (globMatch pt) op
+    let cl : List String :=
+      (match op with
+        | .test .assignDefault colon _ =>
+          if ok && posixTable .assignDefault colon (bashState target) = .assign
+          then ["indirect_assign_default_assigns_reference"] else []
+        | .sub _ _ =>
+          (match target with
+            | .posAll _ _ => if ok then ["indirect_positional_slice_without_argv0"] else []
+            | _ => [])
+        | _ => [])
+    -- brush assigns to the reference: the target keeps its value
+    showRes i.res ++ [' '] ++ showProbe target { res := i.res } ++ " | ".toList ++ showOutcome target s ++
+      " | ".toList ++ (if cl.isEmpty then ['-'] else (String.intercalate "," cl).toList)
+
 def handle (toks : List Str) : Str :=
   match toks with
-  | nu :: rest =>
+  | nu :: ind :: rs :: rest =>
+    if ind = "IND".toList then
+      match parseParam rest with
+      | none => "bad-param".toList
+      | some (t, opToks) => handleInd (nu = ['1']) rs t opToks
+    else handleDirect nu (ind :: rs :: rest)
+  | nu :: rest => handleDirect nu rest
+  | _ => "bad-request".toList
+where
+  handleDirect (nu : Str) (rest : List Str) : Str :=
     match parseParam rest with
     | none => "bad-param".toList
     | some (p, [w, o, l]) =>
@@ -139,8 +180,6 @@ def handle (toks : List Str) : Str :=
         | none => "bad-op".toList
       else handleStd p (nu = ['1']) [w, o, l]
     | some (p, opToks) => handleStd p (nu = ['1']) opToks
-  | _ => "bad-request".toList
-where
   handleStd (p : Param) (nounset : Bool) (opToks : List Str) : Str :=
       match parseOp opToks with
       | none => "bad-op".toList
